@@ -6,7 +6,8 @@ Recipe grammar (plain JSON):
              "p": [[prop_idx, attr_idx]...], "g": [region...], "h": [hint|None ...]}
   region  = [block, ...]                                          (1..n blocks)
   block   = {"args": [type_idx...], "ah": [hint|None...], "h": hint|None, "ops": [op...],
-             "t": {"o": [int...], "s": [int...], "r": [type_idx...], "a": [...]}}   terminator test.termop
+             "t": {"o": [int...], "s": [int...], "r": [type_idx...], "a": [...], "k": int}}
+                                     terminator: test.termop, or the unregistered "unreg.term" when k % 4 == 3
 
 Operand references are integers resolved against the list of values *visible* at the op
 (index modulo the list length; dropped when nothing is visible), so every recipe builds valid IR:
@@ -14,17 +15,18 @@ Operand references are integers resolved against the list of values *visible* at
         + (B is not the entry block of R: all args and results of the entry block)
         + visible(parent op of R)
   in graph mode the ops directly in the module body additionally see every result of the body
-  (use before definition, as MLIR allows in graph regions).
+  (use before definition, as MLIR allows in graph regions); nested builtin.module ops (kind
+  "builtin.module") are always graph regions and isolated from above.
 Successor references are indices into the non-entry blocks of the region (none if single-block).
 """
 from __future__ import annotations
 
 from hypothesis import strategies as st
 
-OP_KINDS = ["test.op", "test.pureop", "unreg.alpha", "unreg.beta", "test.op"]
+OP_KINDS = ["test.op", "test.pureop", "unreg.alpha", "unreg.beta", "test.op", "builtin.module"]
 # kinds with declared memory effects (used by C13); a check selects its vocabulary with `use_kinds`
 EFFECT_KINDS = ["test.pureop", "test.op_with_memread", "test.op_with_memwrite", "test.op", "unreg.alpha",
-                "test.pureop", "test.op_with_symbol", "test.op_with_memread"]
+                "test.pureop", "test.op_with_symbol", "test.op_with_memread", "builtin.module"]
 ACTIVE_KINDS = OP_KINDS
 
 
@@ -93,6 +95,9 @@ def _mk_op(rec, successors=(), term=False):
     attributes = {ATTR_NAMES[n % len(ATTR_NAMES)]: ats[v % len(ats)] for n, v in rec.get("a", [])}
     props = {PROP_NAMES[n % len(PROP_NAMES)]: ats[v % len(ats)] for n, v in rec.get("p", [])}
     if term:
+        if rec.get("k", 0) % 4 == 3:  # an unregistered terminator (has every trait "if unregistered")
+            return unreg_cls("unreg.term").create(result_types=rtypes, attributes=attributes,
+                                                  properties=props, successors=list(successors))
         return TestTermOp.create(result_types=rtypes, attributes=attributes, properties=props,
                                  successors=list(successors))
     kind = ACTIVE_KINDS[rec.get("k", 0) % len(ACTIVE_KINDS)]
@@ -149,7 +154,26 @@ def _build_region(rec_region, out: Built, plan):
     return region
 
 
+def _build_module_op(rec, out: Built, plan):
+    """Nested builtin.module: isolated from above, single block, no terminator, graph region."""
+    from xdsl.dialects.builtin import ModuleOp
+    ats = attrs()
+    attributes = {ATTR_NAMES[n % len(ATTR_NAMES)]: ats[v % len(ats)] for n, v in rec.get("a", [])
+                  if ATTR_NAMES[n % len(ATTR_NAMES)] != "sym_name"}
+    op = ModuleOp([], attributes)
+    out.ops.append(op)
+    out.regions.append(op.body)
+    out.blocks.append(op.body.block)
+    for rrec in rec.get("g", [])[:1]:
+        for brec in rrec:
+            for orec in brec.get("ops", []):
+                op.body.block.add_op(_build_op(orec, out, plan))
+    return op
+
+
 def _build_op(rec, out: Built, plan):
+    if ACTIVE_KINDS[rec.get("k", 0) % len(ACTIVE_KINDS)] == "builtin.module":
+        return _build_module_op(rec, out, plan)
     op = _mk_op(rec)
     for r, hnt in zip(op.results, rec.get("h", [])):
         _set_hint(r, hnt)
@@ -168,10 +192,14 @@ def visible(op, graph_body=None):
         b = cur.parent
         if b is None:
             break
-        if graph_body is not None and b is graph_body:
+        par = b.parent.parent if b.parent is not None else None
+        nested_module = par is not None and par.name == "builtin.module" and par.parent is not None
+        if (graph_body is not None and b is graph_body) or nested_module:
             for o in b.ops:
                 if o is not cur:
                     vis.extend(o.results)
+            if nested_module:
+                break  # isolated from above
         else:
             vis.extend(b.args)
             for o in b.ops:
@@ -215,7 +243,7 @@ def op_recipes(depth: int, hints=HINTS_SIMPLE, max_ops: int = 4, max_blocks: int
     regions = st.just([]) if depth <= 0 else st.lists(
         region_recipes(depth - 1, hints, max_ops, max_blocks), max_size=2)
     return st.fixed_dictionaries({
-        "k": st.integers(0, len(OP_KINDS) - 1),
+        "k": st.integers(0, 11),
         "r": st.lists(small, max_size=3),
         "o": st.lists(st.integers(0, 40), max_size=3),
         "a": st.lists(st.tuples(small, small).map(list), max_size=2),
@@ -236,6 +264,7 @@ def block_recipes(depth: int, hints=HINTS_SIMPLE, max_ops: int = 4, max_blocks: 
             "s": st.lists(st.integers(0, 5), max_size=2),
             "r": st.just([]),
             "a": st.lists(st.tuples(small, small).map(list), max_size=1),
+            "k": st.integers(0, 3),
         }),
     })
 
